@@ -30,6 +30,7 @@ type SpecialCase struct {
 	CollideN      int    `json:"collide_n"`
 	MinLen        int    `json:"min_len"`
 	UseCache      bool   `json:"use_cache"`
+	ConstHasher   bool   `json:"const_hasher,omitempty"`
 	Ops           int    `json:"ops"`
 	Caches        int    `json:"caches"`
 }
@@ -238,6 +239,9 @@ func runKeyType[K comparable](name string, pool []K, sp *SpecialCase, r *simrt.R
 	}()
 	if sp.UseCache {
 		ct = cacheK[K]{cache.NewOfDefault[K, int64](0, 0)}
+	} else if sp.ConstHasher {
+		// a caller-supplied hasher under which every key collides (always a valid hasher)
+		ct = mapK[K]{bridge.NewMapOfWithHasher[K, int64](func(K, uint64) uint64 { return 0x5bd1e995 }, r.Intn(40))}
 	} else if r.Bool(0.5) {
 		ct = mapK[K]{cache.NewMapOf[K, int64]()}
 	} else {
@@ -414,6 +418,7 @@ func genKeys(seed uint64, tier string) *Case {
 	}
 	sp.MinLen = []int{1, 2, 32}[r.Intn(3)]
 	sp.UseCache = r.Bool(0.3)
+	sp.ConstHasher = !sp.UseCache && r.Bool(0.15)
 	sp.Ops = 20 + r.Intn(150)
 	if tier == "thorough" {
 		sp.Ops = 20 + r.Intn(1500)
